@@ -59,7 +59,23 @@ def run_literal(desc):
                     r = check_case(root, spec, list(combo), [], dict(cfg), 'exclude', ('list', 'brace', 'split', 'pathlib')[n % 4], out, armed)
                 if r is not None:
                     out.nontrivial(('literal', desc['tree'], tuple(A.render_path(c) for c in combo)))
-    out.sample({'stream': 'literal lists', 'tree_index': desc['tree'], 'lists': n})
+        # single literal patterns (files, directories, with and without trailing separator) against exclusions that only match the
+        # directory spelling (`*/`, `<name>/`), the plain name, or everything - through every way of delivering an exclusion
+        star_dir = A.PathPat(False, ((A.STAR,),), True, 1)
+        star = A.PathPat(False, ((A.STAR,),), False, 1)
+        m = 0
+        for pp in pats[:14]:
+            own_dir = pp._replace(trail=True)
+            own = pp._replace(trail=False)
+            for excl in ([star_dir], [own_dir], [own], [star], [star_dir, own]):
+                if len(pp.segs) > 1 and excl[0] in (star_dir, star):
+                    continue
+                for delivery in ('exclude', 'inline', 'inline-first'):
+                    for cfg in ({}, {'mark': True}, {'nodir': True}):
+                        m += 1
+                        check_case(root, spec, [pp], list(excl), dict(cfg), delivery, ('list', 'pathlib')[m % 2] if not cfg.get('mark') else 'list', out, armed)
+            out.nontrivial(('literal-excl', desc['tree'], A.render_path(pp)))
+    out.sample({'stream': 'literal lists', 'tree_index': desc['tree'], 'lists': n, 'single_literals_with_exclusions': m})
     return out
 
 
